@@ -10,4 +10,7 @@ verus! { proof fn warm() ensures 1 + 1 == 2int {} }
 fn main() {}
 EOR
 (cd work && verus _warm.rs >/dev/null 2>&1) || { echo "verus cannot verify a trivial file"; exit 1; }
+# the bounded Kani companion (C11 quick tier, C01/C11 thorough tier) needs cargo-kani; its absence is reported here, the
+# checks themselves then record the harnesses as `error` (never as a failure of the property)
+command -v cargo-kani >/dev/null 2>&1 || cargo kani --version >/dev/null 2>&1 || echo "warning: cargo kani not found - bounded companion checks will be skipped"
 echo "setup ok"
